@@ -305,7 +305,7 @@ var registry = func() []regEntry {
 		{nm("alpha", "Float32"), rtOf[alpha.Float32]()}, {nm("alpha", "Float64"), rtOf[alpha.Float64]()}, {nm("alpha", "String"), rtOf[alpha.String]()}, {nm("alpha", "Rune"), rtOf[alpha.Rune]()},
 		{nm("alpha", "Byte"), rtOf[alpha.Byte]()}, {nm("alpha", "Strings"), rtOf[alpha.Strings]()}, {nm("alpha", "IntMap"), rtOf[alpha.IntMap]()}, {nm("alpha", "Arr"), rtOf[alpha.Arr]()},
 		{nm("alpha", "Matrix"), rtOf[alpha.Matrix]()}, {nm("alpha", "Point"), rtOf[alpha.Point]()}, {nm("alpha", "Same"), rtOf[alpha.Same]()}, {nm("alpha", "Named"), rtOf[alpha.Named]()},
-		{nm("alpha", "Embedded"), rtOf[alpha.Embedded]()}, {nm("alpha", "Wide"), rtOf[alpha.Wide]()}, {nm("alpha", "PointRef"), rtOf[alpha.PointRef]()},
+		{nm("alpha", "Embedded"), rtOf[alpha.Embedded]()}, {nm("alpha", "Wide"), rtOf[alpha.Wide]()}, {nm("alpha", "PointRef"), rtOf[alpha.PointRef]()}, {nm("alpha", "Größe"), rtOf[alpha.Größe]()},
 		{nm("beta", "Kind"), rtOf[betav1.Kind]()}, {nm("beta", "Same"), rtOf[betav1.Same]()}, {nm("beta", "Spec"), rtOf[betav1.Spec]()},
 		{nm("gamma", "Same"), rtOf[gammav1.Same]()}, {nm("gamma", "Level"), rtOf[gammav1.Level]()}, {nm("gamma", "Status"), rtOf[gammav1.Status]()},
 		{nm("delta", "Mixed"), rtOf[delta.Mixed]()}, {nm("delta", "Either"), rtOf[delta.Either]()},
@@ -318,6 +318,8 @@ var registry = func() []regEntry {
 		{inst("alpha", "Box", nm("alpha", "Int")), rtOf[alpha.Box[alpha.Int]]()},
 		{inst("alpha", "Box", nm("beta", "Kind")), rtOf[alpha.Box[betav1.Kind]]()},
 		{inst("alpha", "Pair", bs("string"), bs("int")), rtOf[alpha.Pair[string, int]]()},
+		{inst("alpha", "Pair", nm("alpha", "Größe"), bs("int")), rtOf[alpha.Pair[alpha.Größe, int]]()},
+		{inst("alpha", "Triple", inst("alpha", "Box", nm("alpha", "Größe")), nm("alpha", "Größe"), nm("beta", "Kind")), rtOf[alpha.Triple[alpha.Box[alpha.Größe], alpha.Größe, betav1.Kind]]()},
 		{inst("alpha", "Pair", nm("alpha", "Int"), inst("alpha", "Box", bs("int"))), rtOf[alpha.Pair[alpha.Int, alpha.Box[int]]]()},
 		{inst("alpha", "Pair", bs("string"), nm("gamma", "Level")), rtOf[alpha.Pair[string, gammav1.Level]]()},
 		{inst("beta", "List", nm("alpha", "Point")), rtOf[betav1.List[alpha.Point]]()},
@@ -394,7 +396,7 @@ func (n *tn) toReflect() (rt reflect.Type, ok bool) {
 // ---- generators ----
 
 var scalarBasics = []string{"bool", "int", "int8", "int16", "int32", "int64", "uint", "uint8", "uint16", "uint32", "uint64", "uintptr", "float32", "float64", "string", "byte", "rune"}
-var namedScalars = []*tn{nm("alpha", "Bool"), nm("alpha", "Int"), nm("alpha", "Int8"), nm("alpha", "Int64"), nm("alpha", "Uint16"), nm("alpha", "Uintptr"), nm("alpha", "Float32"),
+var namedScalars = []*tn{nm("alpha", "Bool"), nm("alpha", "Int"), nm("alpha", "Int8"), nm("alpha", "Int64"), nm("alpha", "Uint16"), nm("alpha", "Uintptr"), nm("alpha", "Float32"), nm("alpha", "Größe"),
 	nm("alpha", "Float64"), nm("alpha", "String"), nm("alpha", "Rune"), nm("alpha", "Byte"), nm("beta", "Kind"), nm("gamma", "Level"), nm("left", "Mode"), nm("right", "Level"), nm("mv", "Code")}
 var namedComposite = []*tn{nm("alpha", "Wide"), nm("alpha", "Strings"), nm("alpha", "IntMap"), nm("alpha", "Arr"), nm("alpha", "Point"), nm("alpha", "Same"), nm("alpha", "Named"), nm("alpha", "Embedded"),
 	nm("beta", "Same"), nm("beta", "Spec"), nm("gamma", "Same"), nm("gamma", "Status"), nm("alpha", "Matrix"), nm("delta", "Mixed"), nm("delta", "Either"), nm("left", "Opt"), nm("right", "Opt"), nm("mv", "Item")}
